@@ -2,6 +2,7 @@
 From Cctp Require Import Lib.Bytes Lib.SMap Lib.Text Lib.Keccak Lib.Paginate.
 From Cctp Require Import Model.Codec Model.State Model.Ledger Model.Handlers Model.Chain Model.Queries.
 From Cctp Require Import Proofs.MonadFacts Proofs.StoreFacts Proofs.PaginateFacts Proofs.RegistryFacts Proofs.AdminFacts.
+From Cctp Require Import Gen.GenLib Gen.Consts Gen.CheckKeys.
 
 (* ---- the map laws: adding creates exactly one entry, removal deletes exactly that entry, distinct keys
    never interfere (for the ordered map that stands for each collection) ---- *)
@@ -147,7 +148,15 @@ Proof.
   split; [exact W|]. now apply store_keys_nonempty.
 Qed.
 
+(* The five collections and the ten single slots really are disjoint parts of the one flat store: in the Go source
+   as it is now (constants regenerated on every run) no collection prefix, scalar key or role key is empty or a prefix
+   of another, so an entry of one collection can never be read or overwritten through another. *)
+Theorem C19_store_keys_prefix_free :
+  (forallb (fun k => negb (String.eqb k "")) full_keys && pairwise (fun a b => negb (prefixb a b)) full_keys)%bool = true.
+Proof. exact store_keys_prefix_free. Qed.
+
 Print Assumptions C19_map_laws.
+Print Assumptions C19_store_keys_prefix_free.
 Print Assumptions C19_enable_attester.
 Print Assumptions C19_disable_attester.
 Print Assumptions C19_link_token_pair.
